@@ -53,6 +53,10 @@ def pick_model_params(rng, kind, simple=False):
         p["tau"] = beta * rng.random()
     if rng.random() < 0.25:
         p["limit_sigma"] = True
+    if rng.random() < 0.35:
+        # the model's default mu / sigma are only defaults for new ratings: vary them independently of beta
+        p["sigma"] = beta * rng.choice([0.01, 0.1, 0.5, 1.0, 3.0, 10.0])
+        p["mu"] = beta * rng.choice([-5.0, 0.0, 1.0, 6.0, 20.0])
     g = "default"
     r = rng.random()
     if not simple and r < 0.4:
